@@ -260,6 +260,9 @@ impl<const D: usize> GlobalTopologyModel<D> for ToroidalModel<D> {
                 return Err(GlobalTopologyModelError::NonFiniteCoordinate { axis, value: coord });
             }
             let wrapped = coord.rem_euclid(period);
+            // `rem_euclid` can round up to `period` itself for tiny negative inputs; keep the
+            // canonical coordinate inside the half-open interval [0, period).
+            let wrapped = if wrapped >= period { 0.0 } else { wrapped };
             *coord_ref = <T as NumCast>::from(wrapped).ok_or(
                 GlobalTopologyModelError::ScalarConversion {
                     axis,
